@@ -123,12 +123,12 @@ theorem step_G (k i : Nat) :
       L1, Gc, G, A, ex, recordExec, GState.applyOutputs, routeEvent, NodeD.isGate, gLog, AL.get?, AL.put,
       GState.ver, Target.toDec, hg, h, xs, nodeSpanOf]
 
-theorem step_B (k i : Nat) (hprog : Val.pyEq (xs F x0 i) (xs F x0 (i + 1)) = false) :
+theorem step_B (k i : Nat) (hprog : Val.changed (xs F x0 i) (xs F x0 (i + 1)) = true) :
     stepSync nested sem gi (L1 dopen es sp) span k (B F x0 i) [b1] (B F x0 i) [] =
       .ok (G F x0 (i + 1)) (bLog gi span k (xs F x0 i)) := by
   have hb := hs.hb
   simp only [b1, mkNode] at hb
-  have h' : Val.pyEq (xs F x0 i) (F (xs F x0 i)) = false := by simpa [xs] using hprog
+  have h' : Val.changed (xs F x0 i) (F (xs F x0 i)) = true := by simpa [xs] using hprog
   cases i <;>
   simp_all [stepSync, collectInputs, resolveInput, valueSource, execNode, execFn, toParams, b1, mkNode,
       L1, G, A, ex, recordExec, GState.applyOutputs, GState.updateValue, GState.bumps, routeEvent,
@@ -147,7 +147,7 @@ theorem loop_G_succ (mi f k i : Nat) (log : List Log) :
   rw [runLoop_succ_cons _ _ _ _ _ _ _ _ (by rw [ready_G]; simp)]
   simp only [ready_G, stepFn, step_G F c x0 nested sem gi span dopen es sp hs]
 
-theorem loop_B_succ (mi f k i : Nat) (log : List Log) (hprog : Val.pyEq (xs F x0 i) (xs F x0 (i + 1)) = false) :
+theorem loop_B_succ (mi f k i : Nat) (log : List Log) (hprog : Val.changed (xs F x0 i) (xs F x0 (i + 1)) = true) :
     runLoop (stepFn nested sem gi span dopen es sp) (L1 dopen es sp) .none mi (f + 1) k (B F x0 i) log =
       runLoop (stepFn nested sem gi span dopen es sp) (L1 dopen es sp) .none mi f (k + 1)
         (G F x0 (i + 1)) (log ++ bLog gi span k (xs F x0 i)) := by
@@ -193,7 +193,7 @@ include hs
 /-- from `G i` with `d = n - i` iterations to go: exactly `2*d+1` supersteps are needed -/
 theorem loop_from (mi n : Nat)
     (hc : ∀ j, j < n → c (xs F x0 j) = true) (hn : c (xs F x0 n) = false)
-    (hprog : ∀ j, j < n → Val.pyEq (xs F x0 j) (xs F x0 (j + 1)) = false) :
+    (hprog : ∀ j, j < n → Val.changed (xs F x0 j) (xs F x0 (j + 1)) = true) :
     ∀ (d i fuel k : Nat) (log : List Log), i + d = n →
       (2 * d + 1 ≤ fuel → ∃ lg,
         runLoop (stepFn nested sem gi span dopen es sp) (L1 dopen es sp) .none mi fuel k (G F x0 i) log =
